@@ -56,7 +56,7 @@ RULE = ('frames: length x message-length byte x PDL byte x command class x check
         'FromFrame/DUBReply keep the frame and its timing; NULL pointer with a claimed length; Duplicate; setters; '
         'operator== on one-field mutations; non-trivial = frame '
         'accepted / command packed / equality compared; distinct = distinct model output line')
-ASSUMPTIONS = ['operator new does not fail', 'decoders are given exact-size heap copies so ASan sees any over-read']
+ASSUMPTIONS = ['operator new does not fail', 'decoders are given exact-size heap copies so ASan sees any over-read', 'every case is executed at each of the five log levels (NONE..DEBUG, consuming LogDestination): results must be identical and sanitizer-clean at every level']
 TRUSTED = ['modelled rather than verified: RDMCommand.cpp VerifyData/CalculateChecksum/GuessMessageType/Inflate/'
            '4x InflateFromData, RDMCommandSerializer RequiredSize/Pack/PopulateHeader (Write(IOStack) and '
            'Pack(buffer) are compared with the model of Pack(ByteString) by the harness), PackWithStartCode, '
@@ -345,7 +345,7 @@ def gen_cases(rng, tier):
 # property-determined observables; outside: dup (Duplicate), set (setters), b_* (what the response / discovery
 # builders put into a command, and everything computed from it) -- a divergence there is reported without a
 # failing input ("model no longer describes the code").  tz (RDMFrame timing zeroed), isdub are not compared.
-SPEC_KEYS = ('size wr2 pbig st cmd repack packed rt inf req dreq dresp resp respbs frame framep framepb reply fd rsz pbuf psmall '
+SPEC_KEYS = ('lvl size wr2 pbig st cmd repack packed rt inf req dreq dresp resp respbs frame framep framepb reply fd rsz pbuf psmall '
              'wr papp pwsc pwsc2 eqback eq eqsym').split()
 INTERNAL_KEYS = ['tz', 'isdub', 'b_isdub']
 
